@@ -184,6 +184,21 @@ def check(tier, seed):
                                   % (limit, flt, flagged, want, depths),
                                   dict(w, flagged=flagged, expected=want, missed=under,
                                        top_level_fragment=any(not isinstance(s, A.Field) for o in ops for s in o.selection_set.selections)), True)
+    # the rule also runs when the variables are not at hand (as a plain validator), are null, or of the wrong kind: wherever the steering directive stands - root,
+    # nested field, inline fragment, fragment - it raises nothing (what it reports then is not specified, it cannot know)
+    for depth in (1, 2, 3):
+        for lvl in range(0, depth + 1):
+            for text in (build_doc(depth, ("none",) * (depth + 1), skip_at=lvl).replace("= false", ""),
+                         build_doc(depth, ("spread",) + ("inline",) * depth, skip_at=lvl).replace("= false", ""),
+                         build_doc(depth, ("inline",) + ("spread",) * depth, skip_at=lvl, side=1).replace("= false", "")):
+                for variables in (None, {}, {"s": None}, {"s": "yes"}, {"s": [True]}, {"other": 1}):
+                    for limit in (0, 2):
+                        n += 1
+                        try:
+                            list(MaxDepthValidationRule(limit)(None, parse(text), variables) or [])
+                        except Exception as e:
+                            run.violation("MaxDepthValidationRule:never-raises", "raised %r with variables %r (steering directive at level %d)" % (e, variables, lvl),
+                                          {"document": text, "variables": variables, "limit": limit, "exc": type(e).__name__, "flat": False}, True)
     if n == 0:
         raise MachineryDefect("no cases")
     run.cov["evaluations"] = n
